@@ -9,10 +9,23 @@ SLICE_OPS = {'getn', 'getavail', 'getmult', 'nextslices', 'peekslice', 'peekavai
              'pushslice', 'pushsliceinit', 'pushclone', 'pushcloneinit'}
 DET_OPS = {'detach', 'attach', 'sync', 'setindex', 'goback', 'dreset'}
 
-def opname(s): return s.split()[0] if s else ''
+def inj_parts(s):
+    """`inj <poll> | <step of another stage>` (a poll during whose waker registration another stage acts) -> (poll, step); else (s, None)"""
+    if s and s.startswith('inj ') and '|' in s:
+        a, b = s[4:].split('|', 1)
+        return a.strip(), b.strip()
+    return s, None
+def opname(s):
+    s = inj_parts(s)[0]
+    return s.split()[0] if s else ''
 def stage_of(s):
-    w = s.split()
+    w = inj_parts(s)[0].split()
     return w[1] if len(w) > 1 and w[1] in ('P', 'W', 'C') else None
+FUT_STAGE = {'push': 'P', 'pushslice': 'P', 'pushclone': 'P', 'nextitem': 'P', 'nextinit': 'P', 'nextslices': 'P', 'pop': 'C', 'popmove': 'C', 'copyitem': 'C',
+             'cloneitem': 'C', 'copyslice': 'C', 'cloneslice': 'C', 'peek': 'C', 'peekslice': 'C', 'peekavail': 'C'}
+def acting_stage(op):
+    op = op.replace('hold ', '')
+    return stage_of(op) or FUT_STAGE.get(opname(op))
 
 # ---- which Spec-vs-implementation divergences are failing inputs of which property
 def is_c01(d):
@@ -472,7 +485,8 @@ def c09_zst(ctx, seqrun, stats, divs):
 CHECKS['C08'] = LedgerCheck('C08', is_ledger, LEDGER_TEXT + ' The cell primitives themselves: cellprobe (public API of UnsafeSyncCell on single cells, item sizes 1..24 bytes).', extra=lambda ctx, seqrun, stats, divs: run_cellprobe(ctx, stats))
 CHECKS['C09'] = LedgerCheck('C09', is_ledger, LEDGER_TEXT + ' Zero-sized item types (no bytes: outside the Model): exact drop ledger on rule-following histories (zstprobe). The cell primitives themselves: cellprobe.', extra=c09_zst)
 for pid in ('C08', 'C09'):
-    CHECKS[pid].propfiles = [f'Props/{pid}.v', 'Props/DTie.v']   # D-tie: the ledger events of every store / take / clone in the translated source = the Model's
+    # D-tie: the ledger events of every store / take / clone in the translated source = the Model's; C-tie: the cell primitives they are built from
+    CHECKS[pid].propfiles = [f'Props/{pid}.v', 'Props/DTie.v', 'Props/CTie.v']
 
 
 # ------------------------------------------------------------------------------------------- async: C14, C15
@@ -535,8 +549,13 @@ class AsyncCheck(SeqCheck):
             if impl.startswith('pending'): pending_polls += 1
             for k in range(3):
                 if sat[k] == '1' and p[0][k] == '0' and idx >= 0:
-                    actor = stage_of(ops[idx]) or {'push': 'P', 'pushslice': 'P', 'pushclone': 'P', 'pop': 'C', 'popmove': 'C', 'copyitem': 'C', 'cloneitem': 'C',
-                                                   'copyslice': 'C', 'cloneslice': 'C'}.get(opname(ops[idx].replace('hold ', '')), '?')
+                    pa, ia = inj_parts(ops[idx])
+                    actor = acting_stage(pa) or '?'
+                    if ia is not None:
+                        # a poll with an injected step of another stage: the stage that feeds k is the one that made it possible
+                        feeder = {'P': 'C', 'W': 'P', 'C': ('W' if 'stages=3' in cfg else 'P')}[names[k]]
+                        both = [actor, acting_stage(ia) or '?']
+                        actor = feeder if feeder in both else both[1]
                     if w <= p[1]:
                         inst.setdefault(f'no-wake/{names[k]}<-{actor}', []).append((header, cfg, ops[:idx + 1]))
             prev[key] = (sat, w)
